@@ -463,6 +463,11 @@ func dropAllNullRows(a *answer) *answer {
 
 // classifyTie: signature of two admissible but different tie choices of a selector.
 func classifyTie(q *querySpec, a, b cell, mm *mismatch) string {
+	var hasTag, hasField bool
+	q.Where.kinds(&hasTag, &hasField)
+	if (q.Interval > 0 || hasField) && (a.Layout == "mixed" && a.Inner < 1024 || b.Layout == "mixed" && b.Inner < 1024) {
+		return sigMixedChunk // answers of that input class are wrong anyway (known), ties included
+	}
 	what := "value-differs"
 	if mm.WrongTime > 0 && mm.WrongValue == 0 {
 		what = "reported-time-differs"
@@ -471,11 +476,11 @@ func classifyTie(q *querySpec, a, b cell, mm *mismatch) string {
 	if q.Interval > 0 {
 		by = "bytime"
 	}
-	where := "cells-of-one-layout"
-	if a.Layout != b.Layout {
-		where = "cells-of-different-layouts"
+	order := "ascending-cells"
+	if a.Desc || b.Desc {
+		order = "a-descending-cell"
 	}
-	return fmt.Sprintf("metamorphic|selector-tie|%s(%s)|%s|%s-between-%s", q.Func, kindName[fieldKinds[q.Field]], by, what, where)
+	return fmt.Sprintf("metamorphic|selector-tie|%s(%s)|%s|%s-between-cells|%s", q.Func, kindName[fieldKinds[q.Field]], by, what, order)
 }
 
 var kindName = map[byte]string{'i': "integer", 'f': "float", 'b': "boolean", 's': "string"}
